@@ -47,7 +47,7 @@ func (w *World) compileAxioms() error {
 }
 
 // unfoldSpecs returns defining-equation instances for the recursive spec applications in ts.
-func (w *World) unfoldSpecs(ts []*Term, depth int) []*Term {
+func (w *World) unfoldSpecs(ts []*Term, depth int, reveal map[string]bool) []*Term {
 	seen := map[string]bool{}
 	var out []*Term
 	frontier := ts
@@ -71,6 +71,9 @@ func (w *World) unfoldSpecs(ts []*Term, depth int) []*Term {
 		for _, app := range apps {
 			sf := w.P.Specs[strings.TrimPrefix(app.Op, "spec_")]
 			if sf == nil || sf.Body == nil {
+				continue
+			}
+			if sf.Opaque && !reveal[sf.Name] {
 				continue
 			}
 			if len(app.Args) != len(sf.Params)+len(sf.Reads) {
@@ -98,6 +101,20 @@ func (w *World) unfoldSpecs(ts []*Term, depth int) []*Term {
 				body = env.coerce(r, sf.Result)
 			}()
 			eq := Eq(app, body)
+			// applications under a quantifier mention its bound variables: quantify the instance too
+			bound := map[string]bool{}
+			app.walk(func(x *Term) {
+				if len(x.Args) == 0 && strings.HasPrefix(x.Op, "q_") {
+					bound[x.Op] = true
+				}
+			})
+			if len(bound) > 0 {
+				var bs []string
+				for _, b := range sortedKeys(bound) {
+					bs = append(bs, "("+b+" Int)")
+				}
+				eq = A("forall", A("("+strings.Join(bs, " ")+")"), A("!", eq, Leaf(":pattern"), A("", app)))
+			}
 			out = append(out, eq)
 			next = append(next, body)
 		}
@@ -107,7 +124,7 @@ func (w *World) unfoldSpecs(ts []*Term, depth int) []*Term {
 }
 
 // buildScript renders the SMT-LIB text of one obligation (without the shared prelude).
-func (o *Obligation) buildBody(w *World, depth int, withCarve bool) string {
+func (o *Obligation) buildBody(w *World, depth int, dropHyp int, extra ...*Term) string {
 	enc := o.enc
 	var sb strings.Builder
 	var asserts []*Term
@@ -119,15 +136,39 @@ func (o *Obligation) buildBody(w *World, depth int, withCarve bool) string {
 		}
 	}
 	var hyps []*Term
-	if withCarve {
-		hyps = o.Hyps
+	for i, h := range o.Hyps {
+		if i != dropHyp {
+			hyps = append(hyps, h)
+		}
 	}
+	hyps = append(hyps, extra...)
 	all := append(append([]*Term{}, asserts...), o.Goal)
 	all = append(all, hyps...)
-	for _, ca := range w.axioms {
-		all = append(all, ca.term)
+	// library axioms: only those that share an uninterpreted symbol with the obligation
+	used := map[string]bool{}
+	for _, t := range all {
+		t.symbols(used)
 	}
-	unf := w.unfoldSpecs(all, depth)
+	var axioms []*compiledAxiom
+	for _, ca := range w.axioms {
+		syms := map[string]bool{}
+		ca.term.symbols(syms)
+		rel := false
+		for sname := range syms {
+			if _, isUF := w.ufuncs[sname]; isUF && used[sname] {
+				rel = true
+			}
+		}
+		if rel {
+			axioms = append(axioms, ca)
+			all = append(all, ca.term)
+		}
+	}
+	var reveal map[string]bool
+	if enc.fc != nil {
+		reveal = enc.fc.Reveal
+	}
+	unf := w.unfoldSpecs(all, depth, reveal)
 	// dummy heap constants possibly left by abstract evaluation
 	dummies := map[string]bool{}
 	for _, t := range append(all, unf...) {
@@ -141,7 +182,7 @@ func (o *Obligation) buildBody(w *World, depth int, withCarve bool) string {
 		ds := sortedKeys(dummies)
 		panic(unsupportedErr{"specification reads heap state that is not threaded: " + strings.Join(ds, ",")})
 	}
-	for _, ca := range w.axioms {
+	for _, ca := range axioms {
 		fmt.Fprintf(&sb, "(assert %s)\n", ca.term)
 	}
 	for _, a := range asserts {
